@@ -24,9 +24,11 @@ def run(cx):
     cx.rule("C11.R2", "K4", "into_data: every field of the task / process row is built from the same-named accessor")
     cx.rule("C11.R4", "K3", "nothing lives in memory only: every cell of the live Task / Process that can change while the process runs (a field behind a lock or an atomic) is read by into_data into the stored row")
     r4_no_memory_only_cells(cx)
+    cx.rule("C11.R5", "K2", "Store::upsert_task / upsert_proc write the row on every path that reports success (update or create): no silent skip of a write")
     cx.rule("C11.R3", "K3", "every process cell that can change after start (state, end_time, err, env) is patched into the process row whenever a task is stored")
     r2(cx)
     r3(cx)
+    r5_upsert_writes(cx)
     r1_tracked(cx)
     r1_other(cx)
 
@@ -546,3 +548,39 @@ def r4_no_memory_only_cells(cx, rule="C11.R4"):
                   "the cell `%s.%s` (%s) changes while the process runs and is read by %s::into_data into the stored row%s" % (
                       short, fld, ty[:60], short, "" if fld in read else " - it is NOT: what it holds exists in memory only and is gone after a reload"), f.loc())
     cx.floor(rule, 12)
+
+
+def r5_upsert_writes(cx):
+    """every Ok exit of Store::upsert_task / upsert_proc lies behind DbCollection::update or ::create of the row built from
+    the live object: a path that returns Ok without writing (a "closed rows are final" shortcut, an "unchanged" test) leaves
+    the store behind the engine - e.g. the catch revival Error -> Running would never reach the row"""
+    m = cx.m
+    pa = Prov(m, "alias")
+    for name in ("upsert_task", "upsert_proc"):
+        f = m.one(r"^acts::cache::store::<impl acts::store::store::Store>::%s$" % name)
+        writes = [c for c in f.calls() if c.kind == "virtual" and re.search(r"DbCollection::(update|create)$", c.q)]
+        data = [c for c in f.calls() if c.q.endswith("::into_data")]
+        from_live = bool(data) and all(_from_call(f, pa, w.args[1], data) for w in writes)
+        oks = [b for b, kind in f.exit_defs() if kind == "OK"]
+        bypass = f.reach_from([0], avoid=[w.b for w in writes])
+        silent = [b for b in oks if b in bypass]
+        cx.ob("C11.R5", "%s:always-writes" % name, bool(writes) and bool(oks) and not silent and from_live,
+              "`Store::%s` returns Ok only after it updated or created the row from `into_data()` of the live object%s" % (
+                  name, "" if (not silent and from_live) else " - but %s" % ("an Ok return is reachable without a write (%s)" % [f.loc(b) for b in silent] if silent else "the row written is not the one built from the live object")), f.loc())
+    cx.floor("C11.R5", 2)
+
+
+def _from_call(f, pa, op, calls):
+    r = pa.root(f, op)
+    n = 0
+    while r[0] == "call" and n < 6:
+        if any(r[2] == c.b for c in calls):
+            return True
+        c = Call(f, r[2])
+        if not c.args:
+            return False
+        r = pa.root(f, c.args[0])
+        n += 1
+    if r[0] == "local":
+        return any(d[2] == "call" and any(d[0] == c.b for c in calls) for d in f.defs().get(r[1], []))
+    return False
